@@ -67,12 +67,16 @@ def gen_sequence(rng, n_ops=None, docs=None):
         docs.append(t)
     if not given and rng.random() < 0.2:
         docs.append(REQ_DOC)
+    if not given and rng.random() < 0.3:
+        # a docstring that the labeller accepts and the PACKAGING step rejects (it tokenizes but is not Python), not in its first
+        # chunk: what a failed parse leaves behind on a shared parser object must not reach the next parse
+        docs.append('Some text.\n\n>>> a = 1\n>>> print(a)\n1\n\nMore text.\n\n>>> x = = 2\n')
     ops = []
     for _ in range(n_ops or rng.randint(6, 14)):
         i = rng.randrange(len(docs))
         r = rng.random()
         if r < 0.4:
-            ops.append(('parse', i, rng.choice(['new', 'new', 'shared', 'repl'])))
+            ops.append(('parse', i, rng.choice(['new', 'shared', 'shared', 'repl'])))
         elif r < 0.52:
             ops.append(('mutate', i))
         elif r < 0.6:
